@@ -1,5 +1,6 @@
 import FimVerif.Model.GraphML
 import FimVerif.Model.Serial
+import FimVerif.Model.SerialFS
 import FimVerif.Proofs.Lemmas.C01Doc
 import FimVerif.Proofs.Lemmas.C01Iter
 import FimVerif.Proofs.Lemmas.C01Store
@@ -3041,5 +3042,238 @@ example : ∀ n ∈ exMerged.graphNodes (.str "A"),
     SetterProduced FimVerif.Gen.Serial.jsonPropertyNames (fun t => t == "7" || t == "\"x\"") n.attrs := by decide
 
 example : validate FimVerif.Gen.Serial.jsonPropertyNames (fun t => t == "7" || t == "\"x\"") exMerged (.str "A") = .ok () := rfl
+
+/-! ### state that outlives a call: files written more than once, imports that were refused -/
+
+theorem fs_read_write {κ : Type} (fs : FS κ) (p : String) (d : Doc κ) : (fs.write p d).read p = some d := by
+  simp [FS.write, FS.read]
+
+theorem fs_read_write_other {κ : Type} (fs : FS κ) (p q : String) (d : Doc κ) (h : q ≠ p) : (fs.write p d).read q = fs.read q := by
+  have : (q == p) = false := by simpa using h
+  simp [FS.write, FS.read, List.lookup, this]
+
+theorem getGraphId_ok_readDoc {κ : Type} [DecidableEq κ] (d : Doc κ) (g : Val) (h : getGraphId d = .ok g) :
+    ∃ G, readDoc d = some G := by
+  unfold getGraphId at h
+  cases hr : readDoc d with
+  | none => simp [hr] at h
+  | some G => exact ⟨G, rfl⟩
+
+/-- the tie: the helper was observed to read the file on every call -/
+theorem graphId_follows_file_tie : FimVerif.Gen.Serial.graphIdFollowsFile = true := by decide
+
+/-- **a file is read as what was written to it last**, whatever the process wrote, asked and imported before: the id-keeping
+    file import of a path equals the id-keeping string import of the last text written there - for every earlier content of
+    the file system and everything the id helper may have answered before (the memo), on both stores -/
+theorem file_direct_reads_last_write [DecidableEq κ] (s : Store) (fs : FS κ) (memo : IdMemo) (p : String) (d : Doc κ) :
+    (importFileDirect FimVerif.Gen.Serial.graphIdFollowsFile s (fs.write p d) memo p).1 = importDirect s d := by
+  rw [graphId_follows_file_tie]
+  unfold importFileDirect graphIdOfFile importDirect
+  simp only [fs_read_write, if_true, Option.bind_some]
+  cases hg : getGraphId d with
+  | error e => rfl
+  | ok g =>
+    obtain ⟨G, hG⟩ := getGraphId_ok_readDoc d g hg
+    simp [hG]
+
+theorem dfile_direct_reads_last_write [DecidableEq κ] (s : DStore) (fs : FS κ) (memo : IdMemo) (p : String) (d : Doc κ) :
+    (dImportFileDirect FimVerif.Gen.Serial.graphIdFollowsFile s (fs.write p d) memo p).1 = dImportDirect s d := by
+  rw [graphId_follows_file_tie]
+  unfold dImportFileDirect graphIdOfFile dImportDirect
+  simp only [fs_read_write, if_true, Option.bind_some]
+  cases hg : getGraphId d with
+  | error e => rfl
+  | ok g =>
+    obtain ⟨G, hG⟩ := getGraphId_ok_readDoc d g hg
+    simp [hG]
+
+/-- … and the memo stays empty, so the statement holds again after any number of such calls -/
+theorem file_direct_keeps_memo [DecidableEq κ] (s : Store) (fs : FS κ) (memo : IdMemo) (p : String) :
+    (importFileDirect FimVerif.Gen.Serial.graphIdFollowsFile s fs memo p).2 = memo := by
+  rw [graphId_follows_file_tie]
+  unfold importFileDirect graphIdOfFile
+  simp only [if_true]
+  cases hf : fs.read p with
+  | none => rfl
+  | some d =>
+    cases hg : getGraphId d with
+    | error e => simp [hg]
+    | ok g =>
+      simp only [hg, Option.bind_some]
+      cases readDoc d <;> rfl
+
+/-- the reassigning file import never asks the helper: the last text written, whatever was asked before -/
+theorem file_reads_last_write [DecidableEq κ] (s : Store) (fs : FS κ) (p : String) (d : Doc κ) (g : Val) :
+    importFile s (fs.write p d) p g = importString s d g := by
+  simp [importFile, fs_read_write]
+
+/-- what the flag protects: with an id helper that remembers its answer per file name (`follows = false`) a path that was
+    asked about while it held a model of graph `g0` is imported under `g0` after it has been rewritten with a model of
+    another graph `g` - the second load of a re-used file name does not give the model that was saved -/
+theorem file_direct_memo_counterexample [DecidableEq κ] (s : Store) (fs : FS κ) (memo : IdMemo) (p : String) (d : Doc κ) (g g0 : Val)
+    (hd : getGraphId d = .ok g) (hne : g0 ≠ g) :
+    (importFileDirect false s (fs.write p d) ((p, g0) :: memo) p).1.1 = .ok g0 ∧
+    (importFileDirect false s (fs.write p d) ((p, g0) :: memo) p).1.1 ≠ (importDirect s d).1 := by
+  obtain ⟨G, hG⟩ := getGraphId_ok_readDoc d g hd
+  have h1 : (importFileDirect false s (fs.write p d) ((p, g0) :: memo) p).1.1 = .ok g0 := by
+    simp [importFileDirect, graphIdOfFile, fs_read_write, List.lookup, hG]
+  refine ⟨h1, ?_⟩
+  rw [h1]
+  simp [importDirect, hd, hG]
+  exact hne
+
+theorem delGraph_free (s : Store) (g : Val) (h : s.graphNodes g = []) : s.delGraph g = s := by
+  unfold Store.graphNodes at h
+  have hn : ∀ n ∈ s.nodes, Store.inGraph g n = false := by
+    intro n hn
+    cases hb : Store.inGraph g n with
+    | false => rfl
+    | true =>
+      have : n ∈ s.nodes.filter (Store.inGraph g) := List.mem_filter.mpr ⟨hn, hb⟩
+      rw [h] at this
+      cases this
+  cases s with
+  | mk nodes edges nextId =>
+    simp only [Store.delGraph, Store.graphNodes] at *
+    have hnodes : nodes.filter (fun n => !Store.inGraph g n) = nodes :=
+      List.filter_eq_self.mpr (by intro n hn'; simp [hn n hn'])
+    rw [h]
+    simp [hnodes]
+
+theorem addGraph_error_store [DecidableEq κ] (s : Store) (g : Val) (G : Graph κ) (e : String)
+    (h : (s.addGraph g G).1 = .error e) : (s.addGraph g G).2 = s.delGraph g := by
+  simp only [Store.addGraph] at h ⊢
+  split at h
+  · simp at h
+  · rename_i hc
+    simp only [hc]
+    rfl
+
+theorem dAddGraph_go_error_store [DecidableEq κ] (s : DStore) (g : Val) (G : Graph κ) (e : String)
+    (h : (DStore.addGraph.go s g G).1 = .error e) : (DStore.addGraph.go s g G).2 = s := by
+  simp only [DStore.addGraph.go] at h ⊢
+  split at h
+  · simp at h
+  · rename_i hc
+    simp only [hc]
+    rfl
+
+/-- the tie: refused imports under free ids were observed to leave the store alone -/
+theorem refused_import_tie : FimVerif.Gen.Serial.refusedImportLeavesStore = true := by decide
+
+/-- **a refused import leaves nothing behind**: whatever the text, a reassigning import (string or file) that ends in an error
+    leaves either the store as it was or the store without the graph of the requested id - never a node of the refused text, and
+    the next internal id is unchanged -/
+theorem refused_import_leaves_nothing [DecidableEq κ] (s : Store) (d : Doc κ) (g : Val) (e : String)
+    (h : (importString s d g).1 = .error e) :
+    ((importString s d g).2 = s ∨ (importString s d g).2 = s.delGraph g) ∧ (importString s d g).2.nextId = s.nextId := by
+  unfold importString at h ⊢
+  cases hr : readDoc d with
+  | none => simp
+  | some G =>
+    simp only [hr] at h ⊢
+    by_cases hemp : G.nodes.isEmpty = true
+    · simp [hemp]
+    · simp only [hemp, Bool.false_eq_true, if_false] at h ⊢
+      have key := addGraph_error_store s g G
+      cases hag : s.addGraph g G with
+      | mk r s' =>
+        rw [hag] at h key
+        cases r with
+        | ok _ => simp at h
+        | error e' =>
+          have := key e' rfl
+          simp only at this ⊢
+          subst this
+          exact ⟨Or.inr rfl, rfl⟩
+
+/-- under an id nobody holds the store is exactly what it was, so every later import, load or clone - and every round-trip
+    theorem above - is what it would have been without the refused call -/
+theorem refused_import_free_id [DecidableEq κ] (s : Store) (d : Doc κ) (g : Val) (e : String)
+    (hfree : s.graphNodes g = []) (h : (importString s d g).1 = .error e) : (importString s d g).2 = s := by
+  rcases (refused_import_leaves_nothing s d g e h).1 with h1 | h1
+  · exact h1
+  · rw [h1, delGraph_free s g hfree]
+
+/-- the id-keeping entry points refuse before they touch the store -/
+theorem refused_direct_import_unchanged [DecidableEq κ] (s : Store) (d : Doc κ) (e : String)
+    (h : (importDirect s d).1 = .error e) : (importDirect s d).2 = s := by
+  unfold importDirect at h ⊢
+  cases hg : getGraphId d with
+  | error e' => rfl
+  | ok g =>
+    simp only [hg] at h ⊢
+    cases hr : readDoc d with
+    | none => rfl
+    | some G => simp [hr] at h
+
+/-- the per-graph store: a refused import of either kind leaves the store as it was -/
+theorem drefused_import_unchanged [DecidableEq κ] (s : DStore) (d : Doc κ) (g : Val) (e : String)
+    (h : (dImportString s d g).1 = .error e) : (dImportString s d g).2 = s := by
+  unfold dImportString at h ⊢
+  cases hr : readDoc d with
+  | none => rfl
+  | some G =>
+    simp only [hr] at h ⊢
+    by_cases hemp : G.nodes.isEmpty = true
+    · simp [hemp]
+    · simp only [hemp, Bool.false_eq_true, if_false] at h ⊢
+      have hgo := dAddGraph_go_error_store s g G
+      unfold DStore.addGraph at h ⊢
+      cases hl : s.graphs.lookup g with
+      | none =>
+        simp only [hl] at h ⊢
+        cases hag : DStore.addGraph.go s g G with
+        | mk r s' =>
+          rw [hag] at h
+          cases r with
+          | ok _ => simp at h
+          | error e' => have := hgo e' (by rw [hag]); rw [hag] at this; simpa using this
+      | some old =>
+        simp only [hl] at h ⊢
+        by_cases hold : old.nodes.isEmpty = true
+        · simp only [hold, Bool.not_true, Bool.false_eq_true, if_false] at h ⊢
+          cases hag : DStore.addGraph.go s g G with
+          | mk r s' =>
+            rw [hag] at h
+            cases r with
+            | ok _ => simp at h
+            | error e' => have := hgo e' (by rw [hag]); rw [hag] at this; simpa using this
+        · simp [hold] at h
+
+/-- a text the importer refuses after a complete node: the second node has no NodeID; every node carries a property no model has -/
+def exRefusedDoc : Doc Nat :=
+  .json { directed := false, multigraph := false,
+          nodes := [[("NodeID", .v (.str "w1")), ("Class", .v (.str "NetworkNode")), ("GraphID", .v (.str "x")), ("Residue", .v (.str "left")), ("id", .k 0)],
+                    [("Class", .v (.str "Component")), ("GraphID", .v (.str "x")), ("Residue", .v (.str "left")), ("id", .k 1)]],
+          edges := [[("Class", .v (.str "has")), ("source", .k 0), ("target", .k 1)]] }
+
+/-- non-vacuity: the text is refused, under an id nobody holds, and the store it meets is not empty -/
+example : (importString exMerged exRefusedDoc (.str "draft")).1 = .error "import" ∧ exMerged.graphNodes (.str "draft") = [] ∧
+    (importString exMerged exRefusedDoc (.str "draft")).2 = exMerged := ⟨rfl, rfl, rfl⟩
+
+/-- non-vacuity (held id): the refused text takes the graph of that id with it, and nothing else -/
+example : (importString exMerged exRefusedDoc (.str "A")).1 = .error "import" ∧
+    (importString exMerged exRefusedDoc (.str "A")).2 = exMerged.delGraph (.str "A") ∧ exMerged.delGraph (.str "A") ≠ exMerged :=
+  ⟨rfl, rfl, by decide⟩
+
+def exMixedDoc : Doc Nat :=
+  .json { directed := false, multigraph := false,
+          nodes := [[("NodeID", .v (.str "w1")), ("GraphID", .v (.str "x")), ("id", .k 0)],
+                    [("NodeID", .v (.str "w2")), ("GraphID", .v (.str "y")), ("id", .k 1)]],
+          edges := [] }
+
+def exOneNodeDoc : Doc Nat :=
+  .json { directed := false, multigraph := false,
+          nodes := [[("NodeID", .v (.str "w1")), ("GraphID", .v (.str "x")), ("id", .k 0)]], edges := [] }
+
+/-- non-vacuity: a text with two graph ids is refused by the id-keeping entry points -/
+example : (importDirect exMerged exMixedDoc).1 = .error "import" := rfl
+
+/-- non-vacuity of the memo counterexample: a text of graph `x`, a path last asked about while it held graph `A` -/
+example : getGraphId exOneNodeDoc = .ok (.str "x") ∧ (Val.str "A") ≠ .str "x" := ⟨rfl, by decide⟩
+
+/-- non-vacuity on the per-graph store -/
+example : (dImportString exDStore exRefusedDoc (.str "draft")).1 = .error "import" := rfl
 
 end FimVerif.C01
